@@ -56,6 +56,11 @@ func VerifMouseExit(s *VerifSession, clear bool) error {
 	return s.mh.mouseExit(s.App)
 }
 
+// VerifTerminalFocusIn is the vaxis.FocusIn branch of Run (w there is the root widget).
+func VerifTerminalFocusIn(s *VerifSession) error {
+	return s.mh.mouseEnter(s.App, s.App.fh.root)
+}
+
 func VerifSetLastFrame(s *VerifSession, sf Surface) {
 	s.mh.lastFrame = sf
 }
